@@ -85,6 +85,8 @@ def both_limits(r: R, chk, qual: str):
     for n in r.stmt_nodes(ctx):
         if isinstance(n.ast, ast.Return) and n.ast.value is not None:
             v = n.ast.value
+            while isinstance(v, ast.Call) and seg(v.func) == "bool" and len(v.args) == 1:
+                v = v.args[0]
             if isinstance(v, ast.UnaryOp) and isinstance(v.op, ast.Not):
                 rejecting += [simple(d) for d in disjuncts(v.operand)]
             elif isinstance(v, (ast.BoolOp, ast.Compare)):
